@@ -169,7 +169,7 @@ func (c *CryptoCodec) Decrypt(hexKey, hexIv string, text []byte) ([]byte, error)
 
 	switch c.mode {
 	case CBC:
-		return c.decryptCBC(block, iv, text), nil
+		return c.decryptCBC(block, iv, text)
 	case CTR:
 		return c.decryptCTR(block, iv, text), nil
 	case GCM:
@@ -180,7 +180,11 @@ func (c *CryptoCodec) Decrypt(hexKey, hexIv string, text []byte) ([]byte, error)
 	return nil, errors.New(c.name, "Unsupported mode: %s", c.mode)
 }
 
-func (c *CryptoCodec) decryptCBC(block cipher.Block, iv, text []byte) []byte {
+func (c *CryptoCodec) decryptCBC(block cipher.Block, iv, text []byte) ([]byte, error) {
+	// CBC works on whole blocks: anything else is not a ciphertext of this cipher
+	if len(text) == 0 || len(text)%block.BlockSize() != 0 {
+		return nil, errors.New(c.name, "Invalid ciphertext length: %d is not a multiple of the block size", len(text))
+	}
 	dec := cipher.NewCBCDecrypter(block, iv)
 
 	decrypted := make([]byte, len(text))
@@ -189,9 +193,12 @@ func (c *CryptoCodec) decryptCBC(block cipher.Block, iv, text []byte) []byte {
 	if c.padding != NOPAD {
 		// unpadding
 		padSize := int(decrypted[len(decrypted)-1])
+		if padSize == 0 || padSize > block.BlockSize() || padSize > len(decrypted) {
+			return nil, errors.New(c.name, "Invalid padding in decrypted text")
+		}
 		decrypted = decrypted[:len(decrypted)-padSize]
 	}
-	return decrypted
+	return decrypted, nil
 }
 
 func (c *CryptoCodec) decryptCTR(block cipher.Block, iv, text []byte) []byte {
